@@ -43,10 +43,12 @@ struct Job {
     scen: usize,
     v6: bool,
     variant: usize,
+    /// transmit buffer pre-fill
+    poison: u8,
 }
 impl Job {
     fn to_json(&self, name: &str) -> Value {
-        json!({"part": "iface", "scenario": name, "medium": medium_name(self.medium), "ip_mtu": self.ip_mtu, "caps": self.caps, "v6": self.v6, "variant": self.variant})
+        json!({"part": "iface", "scenario": name, "medium": medium_name(self.medium), "ip_mtu": self.ip_mtu, "caps": self.caps, "v6": self.v6, "variant": self.variant, "tx_prefill": self.poison})
     }
 }
 
@@ -86,7 +88,13 @@ fn jobs() -> Vec<Job> {
                     for (si, s) in sc.iter().enumerate() {
                         for variant in 0..s.variants {
                             if (s.setup)(medium, v6, variant).is_some() {
-                                v.push(Job { medium, ip_mtu, caps, scen: si, v6, variant });
+                                v.push(Job { medium, ip_mtu, caps, scen: si, v6, variant, poison: POISON });
+                                // the complementary pre-fill: everywhere on 802.15.4 (IPHC, NHC and
+                                // the MAC header are written by read-modify-write setters), on
+                                // the other media with the default and the all-tx-off capabilities
+                                if medium == Medium::Ieee802154 || caps == 0 || caps == 6 {
+                                    v.push(Job { medium, ip_mtu, caps, scen: si, v6, variant, poison: POISON2 });
+                                }
                             }
                         }
                     }
@@ -104,7 +112,7 @@ fn run_job(j: &Job, trace: bool) -> (JobOut, Vec<String>) {
     let Some(tw) = (s.setup)(j.medium, j.v6, j.variant) else {
         return (out, vec![]);
     };
-    let cfg = RigCfg { medium: j.medium, ip_mtu: j.ip_mtu, caps: j.caps, slaac: tw.slaac, v4_addr: tw.v4, ll_addr: tw.ll, ula_addr: tw.ula };
+    let cfg = RigCfg { medium: j.medium, ip_mtu: j.ip_mtu, caps: j.caps, slaac: tw.slaac, v4_addr: tw.v4, ll_addr: tw.ll, ula_addr: tw.ula, poison: j.poison };
     let r = std::panic::catch_unwind(std::panic::AssertUnwindSafe(|| {
         let mut rig = Rig::new(cfg);
         rig.keep_trace = trace;
@@ -158,6 +166,9 @@ fn run_job(j: &Job, trace: bool) -> (JobOut, Vec<String>) {
                 ),
             ));
         }
+    }
+    for (sig, detail) in &rig.extra_findings {
+        out.findings.push((sig.clone(), format!("scenario {} (v{}, variant {}) on {}: {}", s.name, if j.v6 { 6 } else { 4 }, j.variant, cfg.name(), detail)));
     }
     for (site, msg, loc) in &rig.panics {
         out.findings.push((format!("C10/panic/{}", site), format!("scenario {} (v{}, variant {}) on {}: Interface::poll panicked while emitting: {} at {}", s.name, if j.v6 { 6 } else { 4 }, j.variant, cfg.name(), msg, loc)));
@@ -310,6 +321,7 @@ pub fn run(tier: Tier) -> i32 {
             "fragment_trains_restarted": abandoned,
             "runs_without_any_frame(default caps)": silent_jobs,
             "capability_sets": CAP_NAMES,
+            "tx_buffer_prefill": "0xA5 in every run; additionally 0x5A (complement) in every 802.15.4 run and in the default / all-tx-off runs of the other media",
         }),
     );
     for (shape, fr) in b_total.sample.iter() {
@@ -404,7 +416,7 @@ pub fn run(tier: Tier) -> i32 {
         all.merge(&d_total);
         rep.cov(
             "part_d_event_sequences",
-            json!({"alphabet": "Tick, +1.1s, udp small / big (fragments) / multicast, icmp echo out, inbound big echo request, inbound udp to closed port, inbound SYN to closed port, dns query, join/leave group, neighbor answer, slow-device toggle (one frame per event)",
+            json!({"alphabet": "Tick, +1.1s, udp small / big (fragments) / multicast / big multicast (fragments), icmp echo out, inbound big echo request, inbound udp to closed port, inbound SYN to closed port, dns query, join/leave group, neighbor answer, slow-device toggle (one frame per event)",
                 "note": "frames_validated counts DISTINCT frames here (the BFS re-executes prefixes)", "total": agg_json(&d_total), "per_configuration": per_cfg}),
         );
     }
@@ -459,8 +471,8 @@ pub fn run(tier: Tier) -> i32 {
     );
     rep.assumptions.push("MTU sets: IPv4 {68, 69, 576, 1500}, IPv6 {1280, 1281, 1500} (IP MTU; Ethernet device MTU = IP MTU + 14), IEEE 802.15.4 device MTU {125, 127}; IPv6 scenarios are not run below 1280 (outside the quantified domain)".into());
     rep.assumptions.push("checksum capability sets: default, each of ipv4/udp/tcp/icmpv4/icmpv6 with tx off (Checksum::Rx) one at a time, all five tx off, all five rx off (Checksum::Tx), all five off both ways (Checksum::None); a checksum is only asserted when smoltcp is the one computing it; IGMP has no capability and is always asserted".into());
-    rep.assumptions.push("own addresses at emission time = union of Interface::ip_addrs() before and after the poll that emitted the frame; frames whose (src, dst, protocol) equals a packet the harness pushed through a raw socket are exempt from the source rule only".into());
-    rep.assumptions.push("tcp2: k<=2 (quick) / k<=3 (thorough) deviations (drop / duplicate / reorder / timer-first / reader stall); event sequences: BFS to depth 4 (quick) / 6 (thorough) over 13 events; catalogue: seeds + truncations + boundary-value (quick) / all-value (thorough) single-byte mutants of the first 64 (quick) / 96 (thorough) octets, raw and with checksum fix-up; panics on received garbage in part (c) are C03's verdict and only counted here".into());
+    rep.assumptions.push("transmit buffers are pre-filled with 0xA5, and with the complement 0x5A in every 802.15.4 run and the default / all-tx-off runs of the other media; own addresses at emission time = union of Interface::ip_addrs() before and after the poll that emitted the frame; frames whose (src, dst, protocol) equals a packet the harness pushed through a raw socket are exempt from the source rule only".into());
+    rep.assumptions.push("tcp2: k<=2 (quick) / k<=3 (thorough) deviations (drop / duplicate / reorder / timer-first / reader stall); event sequences: BFS over 14 events to depth 3-4 (quick) / 5-6 (thorough), see the parts list; catalogue: seeds + truncations + boundary-value (quick) / all-value (thorough) single-byte mutants of the first 64 (quick) / 96 (thorough) octets, raw and with checksum fix-up; panics on received garbage in part (c) are C03's verdict and only counted here".into());
     rep.assumptions.push("trusted: the independent parser (egress/mon.rs), the RFC 1071 reference sum, the stimulus builders of the C03 harness".into());
     rep.finish()
 }
@@ -536,8 +548,9 @@ pub fn replay(art: &Value) -> i32 {
                 scen: si,
                 v6: r["v6"].as_bool().unwrap_or(false),
                 variant: r["variant"].as_u64().unwrap_or(0) as usize,
+                poison: r["tx_prefill"].as_u64().unwrap_or(POISON as u64) as u8,
             };
-            println!("scenario {} v{} variant {} on {}/ip-mtu {}/{}", name, if j.v6 { 6 } else { 4 }, j.variant, medium_name(medium), j.ip_mtu, CAP_NAMES[j.caps]);
+            println!("scenario {} v{} variant {} on {}/ip-mtu {}/{}/tx buffers pre-filled with {:#04x}", name, if j.v6 { 6 } else { 4 }, j.variant, medium_name(medium), j.ip_mtu, CAP_NAMES[j.caps], j.poison);
             let (o, trace) = run_job(&j, true);
             for l in trace {
                 println!("  {}", l);
